@@ -44,6 +44,26 @@ func genC05(t *rapid.T) *LCase {
 		c.Reach = append(c.Reach, genInvalidate(t, w.p, w.dir)...)
 		c.Reach = append(c.Reach, genFsOps(t, "reach2", files, dirs, 0, 3)...)
 	}
+	if engine.Pct(t, "ringfill", 10) {
+		// many moves out of watched territory (unmatched rename cookies), then
+		// moves in from outside and within: the cookie bookkeeping is past its
+		// first ten entries while control calls are made
+		n := rapid.IntRange(9, 14).Draw(t, "ringn")
+		for i := 0; i < n; i++ {
+			f := engine.P(fmt.Sprintf("d0/ring-%d", i))
+			c.Reach = append(c.Reach, engine.Step{K: engine.KCreate, P: f}, engine.Step{K: engine.KRename, P: f, Q: engine.P(fmt.Sprintf("u/ring-%d", i))})
+		}
+		c.Reach = append(c.Reach, engine.Step{K: engine.KRename, P: "u/ring-0", Q: "d0/ring-back"}, engine.Step{K: engine.KRename, P: "d0/ring-back", Q: "d0/ring-back2"})
+		has := false
+		for _, a := range c.Adds {
+			if a == "d0" {
+				has = true
+			}
+		}
+		if !has {
+			c.Adds = append(c.Adds, "d0")
+		}
+	}
 	c.Consumer = rapid.SampledFrom([]string{"none", "events", "errors", "both", "stop", "none", "events"}).Draw(t, "consumer")
 	if c.Consumer == "stop" {
 		c.StopAfter = rapid.IntRange(0, 12).Draw(t, "stopafter")
